@@ -845,6 +845,12 @@ def value_forms(node):
         for u in range(1, 9):
             f.append(('bit:unused-%d' % u, bytes([u]) + v[1:]))
         f.append(('bit:unused-1-zero-padding', b'\x01' + v[1:-1] + bytes([v[-1] & 0xFE])))
+        # well-formed BIT STRINGs whose BIT length is not a whole number of octets: k unused bits with clean padding, same octet
+        # count (8n - k bits) and one more content octet (8n + 8 - k bits: the octet count a bit-length test in octets would let through)
+        for u in range(1, 8):
+            f.append(('bit:length-8n-%d' % u, bytes([u]) + v[1:-1] + bytes([v[-1] & (0xFF << u) & 0xFF])))
+            f.append(('bit:length-8n+8-%d' % u, bytes([u]) + v[1:] + b'\x00'))
+            f.append(('bit:length-8n+8-%d' % u, bytes([u]) + v[1:] + bytes([(0xFF << u) & 0xFF])))
         f.append(('bit:no-unused-octet', v[1:]))
     return [(a, b) for a, b in f if b != v]
 
